@@ -124,6 +124,47 @@ func timeline(r *Result) []Item {
 			}
 		}
 	}
+	// ... and so does the act of a timer callback itself: the proxy-side reset of attempt k at or after the nominal expiry of
+	// attempt k's per-try timer, and the reset that comes with the 504 reply at or after the nominal global expiry
+	{
+		nomTry := map[int]int64{}
+		nomGlobal := int64(-1)
+		for _, x := range r.Rec {
+			if x.Kind == "up.new" {
+				if x.K == 0 && gms < 5000 {
+					nomGlobal = x.T + int64(gms)*1000
+				}
+				if tms > 0 && strings.HasPrefix(x.Aux, "ok@") {
+					nomTry[x.K] = x.T + int64(tms)*1000
+				}
+			}
+		}
+		for i, x := range r.Rec {
+			if x.Kind != "up.reset" {
+				continue
+			}
+			d := int64(-1)
+			if n, ok := nomTry[x.K]; ok && x.T >= n-1000 && x.T-n < 40000 {
+				d = x.T - n
+			}
+			if nomGlobal >= 0 && x.T >= nomGlobal-1000 && x.T-nomGlobal < 40000 {
+				for _, y := range r.Rec[i+1:] {
+					if y.T-x.T > 1500 {
+						break
+					}
+					if y.Kind == "down.hdr" && y.Code == 504 && (d < 0 || x.T-nomGlobal < d) {
+						d = x.T - nomGlobal
+					}
+				}
+			}
+			if d >= 0 && d+3000 > late {
+				late = d + 3000
+			}
+		}
+		if late > 40000 {
+			late = 40000
+		}
+	}
 	for _, x := range r.Rec {
 		switch x.Kind {
 		case "ev.start":
@@ -169,7 +210,8 @@ func rounds(items []Item) [][]Item {
 	var out [][]Item
 	hi := int64(0) // latest time of the current round
 	for i, it := range items {
-		if i > 0 && it.T < hi+clusterUs {
+		// (a round of more than 5 items is cut: the exploration of all interleavings grows factorially)
+		if i > 0 && it.T < hi+clusterUs && len(out[len(out)-1]) < 5 {
 			out[len(out)-1] = append(out[len(out)-1], it)
 			if it.Hi > hi {
 				hi = it.Hi
